@@ -538,6 +538,27 @@ func (k *Kernel) RunSteps(n int) {
 	}
 }
 
+// RunOnly releases only task t, again and again, until it is done or cannot
+// proceed by itself (blocked on a lock, condition, select or sleep); every other
+// task stays where it is and no timer fires. It makes no scheduling choice, so
+// it leaves the tape untouched. Reports whether t finished.
+//
+//go:norace
+func (k *Kernel) RunOnly(t *Task) bool {
+	for !k.aborting && t.State() != Done {
+		st := t.State()
+		if st != Parked && !(st == BlockedSelect && t.polledAt != k.version) {
+			return false
+		}
+		if k.steps >= k.MaxSteps {
+			k.FailNow(nil, "harness", "run exceeded the global step cap")
+			return false
+		}
+		k.release(t)
+	}
+	return t.State() == Done
+}
+
 // RunUntil runs steps until pred() holds or nothing is runnable.
 //
 //go:norace
